@@ -102,6 +102,12 @@ def step (d : DSt) (ts : List String) : DSt × List String :=
            | .session k o => s!"session {connStr k} hold={o.hold} id={o.id}"
            | .refused sub => s!"refused 2-{sub}"])
     | _, _ => (d, ["bad-op"])
+  | "pfxedit" :: r =>
+    -- families of one UpdatePeer edit, three numbers each: count oldMax newMax
+    let rec fams : List String → List FamEdit
+      | c :: o :: n :: rest => ⟨nat! c, nat! o, nat! n⟩ :: fams rest
+      | _ => []
+    (d, [if pfxEditShuts false (fams r) then "cease-6-1" else "stays"])
   | ["hdr", k] => (d, [s!"1-{hdrSub (nat! k)}"])
   | ["edge", a, b] =>
     -- b = 99 encodes the dying marker -1 (ends the loop, no transition)
